@@ -122,6 +122,16 @@ def conservation(case):
             if not e <= EX[prec]:
                 viol.append({"what": "mean_concentration_resistance_constant_Kz", "level": L, "R": R, "expected": ex, "precision": prec,
                              "setup": desc, "analytic": analytic})
+    # the same identities for the zero source (mean flux 0): every level keeps the background, no flux appears
+    if case["idx"] % 4 == 0:
+        _, cz, fz = solve.solve(St, np.zeros((ny, nx)), levels, srf_bg_conc=bg_arg, precision=prec, analytic=analytic)
+        counters["solver_calls"] += 1
+        counters["zero_source_runs"] = counters.get("zero_source_runs", 0) + 1
+        cz, fz = solve.as3d(cz, nl), solve.as3d(fz, nl)
+        if cz.shape != (nl, ny, nx) or not float(np.max(np.abs(fz.mean(axis=(1, 2))))) <= 1e-300 \
+                or not float(np.max(np.abs(cz.mean(axis=(1, 2)) - bg))) <= (1e-12 if prec == "double" else 1e-6) * (abs(bg) or 1.0):
+            viol.append({"what": "mean_concentration_of_zero_source_is_not_the_background", "shape": cz.shape, "bg": bg,
+                         "mean_conc": cz.mean(axis=(1, 2)).tolist() if cz.ndim == 3 else None, "precision": prec, "setup": desc, "analytic": analytic})
     # (iii)
     _, G, F = solve.solve(St, np.zeros((ny, nx)), levels, footprint=True, precision=prec, analytic=analytic,
                           meas_pt=(float(rng.integers(nx)) * St["dx"], float(rng.integers(ny)) * St["dy"]))
